@@ -499,22 +499,163 @@ def r4_siblings(ctx):
             ctx.error("_geti2 direct arm", direct[0], "could not evaluate")
 
 
+# ---------------------------------------------------------------------------
+SSM = "pyyeti/ssmodel.py"
+
+
+def _ss_eval(ctx, qual, method, env, prewarp_zero=True):
+    """evaluate one `method` arm of SSModel.c2d / d2c in the scalar image (every matrix is a function of the one matrix A,
+    so they commute; B stays a right factor, C a left factor).  Returns (A, B, C, D) or raises Unsupported."""
+    fn = ctx.src.func(SSM, qual)
+    a_sym = env["__A"]
+
+    def epq(A, h, order, B):
+        E = F.exp(A * h)
+        I1 = (E - 1) / A
+        I2 = (A * h * E - E + 1) / (A * A)      # int_0^h t e^{At} dt
+        if order == 0:
+            P, Q = I1, F.const(0)
+        else:
+            P, Q = I2 / h, I1 - I2 / h
+        if B is not None:
+            P, Q = P * B, Q * B
+        return (E, P, Q)
+
+    def call(node, ev):
+        d = dotted(node.func)
+        if d == "expmint.getEPQ":
+            A = need(ev.ev(node.args[0]), "getEPQ A")
+            h = need(ev.ev(node.args[1]), "getEPQ h")
+            o = need(ev.ev(node.args[2]), "getEPQ order")
+            if not o.is_const():
+                raise Unsupported("getEPQ order is not a literal")
+            B = None
+            for k in node.keywords:
+                if k.arg == "B":
+                    B = need(ev.ev(k.value), "getEPQ B")
+            if len(node.args) > 3:
+                B = need(ev.ev(node.args[3]), "getEPQ B")
+            return epq(A, h, int(o.const_value()), B)
+        if d == "SSModel":
+            return tuple(ev.ev(a) for a in node.args[:4])
+        if d == "np.eye":
+            return F.const(1)
+        if d == "la.lu_factor":
+            return ev.ev(node.args[0])
+        if d in ("la.lu_solve", "la.solve"):
+            x, y = ev.ev(node.args[0]), ev.ev(node.args[1])
+            if is_unknown(x) or is_unknown(y):
+                return x if is_unknown(x) else y
+            return need(y) / need(x)
+        if d == "la.eig":
+            return (ev.ev(node.args[0]), F.const(1))     # scalar image: eigenvalue = the matrix, eigenvector = 1
+        if d == "np.tan":
+            return F.fn("tan", need(ev.ev(node.args[0])))
+        if isinstance(node.func, ast.Attribute) and node.func.attr == "dot" and len(node.args) == 1:
+            x, y = ev.ev(node.func.value), ev.ev(node.args[0])
+            if is_unknown(x) or is_unknown(y):
+                return x if is_unknown(x) else y
+            return need(x) * need(y)
+        return NotImplemented
+
+    def cond(test, ev):
+        t = utext(test)
+        if t in ("self.h", "self.hisNone"):
+            return {"self.h": qual.endswith("c2d") and False, "self.hisNone": False}[t]
+        if t.startswith("method=="):
+            return t == f"method=='{method}'" or t == f'method=="{method}"'
+        if t in ("prewarpisNoneorprewarp==0",):
+            return prewarp_zero
+        return None
+
+    e = {k: v for k, v in env.items() if not k.startswith("__")}
+    ev = Evaluator(env=e, src=ctx.src, call=call, cond=cond)
+    ev.run(fn.body)
+    if not ev.returns:
+        raise Unsupported(f"{qual}[{method}]: no return reached")
+    ret = ev.returns[-1][0]
+    if not isinstance(ret, tuple) or len(ret) != 4 or any(is_unknown(x) for x in ret):
+        raise Unsupported(f"{qual}[{method}]: {ret!r}")
+    return ret, ev.returns[-1][1] if len(ev.returns[-1]) > 1 else fn
+
+
+def r5_ssmodel(ctx):
+    """SSModel.c2d / d2c, per method: (i) the discrete model has the transfer function the hold assumption defines (zoh, zoha, foh)
+    or the bilinear substitution s = k (z-1)/(z+1) of the continuous one (tustin, with k = 2/h or the prewarp value);
+    (ii) d2c(c2d(model)) is the model again.  Decided in the scalar image (all matrices involved are functions of A and commute)."""
+    a, b, c, d, h, z, w = (F.sym(x) for x in ("a", "b", "c", "d", "h", "z", "w"))
+    E = F.exp(a * h)
+    I1 = (E - 1) / a
+    I2 = (a * h * E - E + 1) / (a * a)
+    Hs = lambda s_: c * b / (s_ - a) + d                                # noqa: E731
+    cfn = ctx.src.func(SSM, "SSModel.c2d")
+    dfn = ctx.src.func(SSM, "SSModel.d2c")
+    cases = [("zoh", True), ("zoha", True), ("foh", True), ("tustin", True), ("tustin", False)]
+    for method, pw0 in cases:
+        tag = method + ("" if method != "tustin" else (" (no prewarp)" if pw0 else " (prewarp)"))
+        env = {"self.A": a, "self.B": b, "self.C": c, "self.D": d, "h": h, "prewarp": F.const(0) if pw0 else w, "__A": a,
+               "method": F.sym("method")}
+        try:
+            (zA, zB, zC, zD), _ = _ss_eval(ctx, "SSModel.c2d", method, env, pw0)
+        except Unsupported as e:
+            ctx.error(f"c2d[{tag}]: could not evaluate", cfn, str(e))
+            continue
+        Hz = need(zC) * need(zB) / (z - need(zA)) + need(zD)
+        if method == "tustin":
+            k = F.const(2) / h if pw0 else w / F.fn("tan", w * h / 2)
+            want = Hs(k * (z - 1) / (z + 1))
+            what = "H_z(z) = H_s(k (z-1)/(z+1)) with k = " + ("2/h" if pw0 else "w/tan(w h/2)")
+        else:
+            # x[k+1] = E x[k] + Pu u[k] + Qu u[k+1]:  H_z = c (Pu + z Qu) b / (z - E) + d
+            Pu, Qu = {"zoh": (I1, F.const(0)), "zoha": (I1 / 2, I1 / 2), "foh": (I2 / h, I1 - I2 / h)}[method]
+            want = c * (Pu + z * Qu) * b / (z - E) + d
+            what = {"zoh": "input held at its start-of-step value", "zoha": "input held at the average of its two end values",
+                    "foh": "input linear across the step"}[method]
+            what = f"H_z(z) is the exactly sampled response with the {what}"
+        ok = Hz.equals(want)
+        ctx.check(ok, f"c2d[{tag}]: {what}", cfn, None if ok else {"got": repr(Hz), "want": repr(want)})
+        # round trip
+        env2 = {"self.A": zA, "self.B": zB, "self.C": zC, "self.D": zD, "self.h": h, "prewarp": F.const(0) if pw0 else w, "__A": zA,
+                "method": F.sym("method")}
+        try:
+            (sA, sB, sC, sD), _ = _ss_eval(ctx, "SSModel.d2c", method, env2, pw0)
+        except Unsupported as e:
+            ctx.error(f"d2c[{tag}]: could not evaluate", dfn, str(e))
+            continue
+        for nm, got, wantv in (("A", sA, a), ("B", sB, b), ("C", sC, c), ("D", sD, d)):
+            ok = need(got).equals(wantv)
+            ctx.check(ok, f"d2c[{tag}](c2d[{tag}](s)).{nm} == s.{nm}", dfn, None if ok else repr(got))
+    # both conversions refuse an unknown method (no silent fall-through to some default formula)
+    for fn in (cfn, dfn):
+        last = fn.body[-1]
+        ok = isinstance(last, ast.Raise)
+        ctx.check(ok, f"{fn.name}: an unknown method raises instead of falling through", last)
+    # the discrete model records h / method / prewarp so that d2c can use the same ones
+    rets = [n for n in walk_no_nested(cfn) if isinstance(n, ast.Return) and isinstance(n.value, ast.Call) and dotted(n.value.func) == "SSModel"]
+    ok = len(rets) == 4 and all(len(r.value.args) >= 5 and utext(r.value.args[4]) == "h" for r in rets)
+    ctx.check(ok, "c2d: every discrete model is constructed with the step h it was computed for", cfn)
+
+
 RULES = [
     ("C07-R1", r1_pade_tables, 27),
     ("C07-R2", r2_thresholds, 25),
     ("C07-R3", r3_squaring, 6),
     ("C07-R4", r4_siblings, 11),
+    ("C07-R5", r5_ssmodel, 28),
 ]
 LEVEL = "other"
 EXPLANATION = ("Static: every Pade coefficient table in expmint.py (17 tables) is extracted under the scalar homomorphism A->x and checked, "
                "in exact rational arithmetic on the literals' decimal text, to satisfy the order conditions of the diagonal approximant of "
                "exp(x), sum x^k/(k+1)! and sum x^k/((k+2)k!); arm thresholds equal the published theta_m and agree with the _ell order, table and "
                "_geti2 order of the same arm; scaling by 2^-s is uniform; the squaring loop updates the integral before squaring E; "
-               "getEPQ1/getEPQ_pow build P,Q identically; the power-series loops produce the documented partial sums; getEPQ switches at theta_9.")
+               "getEPQ1/getEPQ_pow build P,Q identically; the power-series loops produce the documented partial sums; getEPQ switches at theta_9; "
+               "SSModel.c2d/d2c formulas are evaluated symbolically per method: hold-equivalent / bilinear transfer function and round trip.")
 MANIFEST = {
     "text": "Partial claim decided statically: (R1) all 17 Pade tables are exact diagonal approximants (order conditions to O(x^(2N+1)) in exact rationals), "
             "with 2^-s scaling applied uniformly; (R2) per-arm threshold/ell-order/table/_geti2-order agreement with the published theta_m, getEPQ's switch; "
-            "(R3) squaring loop I <- I + I.E before E <- E.E; (R4) getEPQ1 == getEPQ_pow in P,Q construction, power-series partial sums, direct I2 formula. "
+            "(R3) squaring loop I <- I + I.E before E <- E.E; (R4) getEPQ1 == getEPQ_pow in P,Q construction, power-series partial sums, direct I2 formula; "
+            "(R5) SSModel.c2d/d2c per method (zoh, zoha, foh, tustin with and without prewarp): the discrete transfer function is the exactly sampled one for the "
+            "stated hold / the bilinear substitution of the continuous one, and d2c(c2d(s)) = s, in the scalar image. "
             "Not decided: floating-point accuracy, scipy's norm estimates and solves, conditioning, the block structure of _ExpmPadeHelper_SS beyond its scalar image.",
     "note": "Trusted: CPython ast; exact Fraction arithmetic; scipy's _ExpmPadeHelper.pade7/pade9 are taken to be the diagonal Pade approximants (library). "
             "The matrix polynomial identities are checked through the scalar homomorphism A -> x (sound for polynomials in one matrix).",
